@@ -1031,3 +1031,37 @@ func twoCopies(mk *ssa.MakeSlice, depth int) ([]ssa.Value, bool) {
 	}
 	return append(append([]ssa.Value{}, pa...), pb...), true
 }
+
+// carriesError: v is the error e, or a merge of e with replacement errors that are only chosen on ways in where e
+// was found nil (a nil write error turned into io.ErrShortWrite): whenever e is non-nil, v is e; v == nil implies e == nil.
+func carriesError(v, e ssa.Value, depth int) bool {
+	v = an.Unwrap(v)
+	if v == e || an.Resolve(v) == e {
+		return true
+	}
+	phi, ok := v.(*ssa.Phi)
+	if !ok || depth > 3 {
+		return false
+	}
+	blk := phi.Block()
+	some := false
+	for i, edge := range phi.Edges {
+		if carriesError(edge, e, depth+1) {
+			some = true
+			continue
+		}
+		if i >= len(blk.Preds) {
+			return false
+		}
+		knownNil := false
+		for _, g := range an.GuardsOfEdge(blk.Preds[i], blk) {
+			if x, trueNonNil, isNil := nilTestOf(g.Cond); isNil && (an.Unwrap(x) == e || an.Resolve(x) == e) && g.True != trueNonNil {
+				knownNil = true
+			}
+		}
+		if !knownNil {
+			return false
+		}
+	}
+	return some
+}
